@@ -488,6 +488,15 @@ def run_history(case, check_clauses=True):
         if check_clauses and op[0] == "ctor":
             for cl, det in ctor_failures(prev, a, op[1]):
                 fails.append((k, cl, det))
+        if check_clauses and (op[0] == "U" or (op[0] == "ctor" and "U" in op[1])):
+            # the atom must not adopt the array object handed in by the caller (two atoms given the same array would share it)
+            from diffpy.structure import Atom as _A
+            arr = numpy.array(op[1] if op[0] == "U" else op[1]["U"], dtype=float).reshape(3, 3)
+            probe = _A(a)
+            probe.U = arr
+            made = _A(U=arr)
+            if probe._U is arr or numpy.shares_memory(probe._U, arr) or made._U is arr or numpy.shares_memory(made._U, arr):
+                fails.append((k, "a copy shares nothing with its source", "assigning U (or Atom(U=..)) adopts the caller's array object"))
         if check_clauses and op[0] == "copy":
             for cl, det in copy_failures(prev, a):
                 fails.append((k, cl, det))
